@@ -36,6 +36,7 @@ type busPlan struct {
 	Handlers int
 	Peer     bool         // a connected, announced peer: the device's core handler sits on the bus too
 	Scripts  [][][]action // per handler: its reactions; event (root r, depth d) picks script (r+d) mod n
+	Cfgs     []int        // per handler: the content of the handler object (equal values: objects that are alike)
 	Phases   []phasePlan
 }
 
@@ -91,6 +92,7 @@ func genBusPlan(t *rapid.T) busPlan {
 		}
 		pl.Phases = append(pl.Phases, ph)
 	}
+	pl.Cfgs = genCfgs(t, pl.Handlers)
 	return pl
 }
 
@@ -103,7 +105,7 @@ func (pl busPlan) render() map[string]any {
 		}
 		phases = append(phases, map[string]any{"workers": ws, "settle": ph.Settle})
 	}
-	return map[string]any{"handlers": pl.Handlers, "peer": pl.Peer, "scripts": showScripts(pl.Scripts), "phases": phases}
+	return map[string]any{"handlers": pl.Handlers, "peer": pl.Peer, "scripts": showScripts(pl.Scripts), "configs": pl.Cfgs, "phases": phases}
 }
 
 // runPhase executes the workers of a phase concurrently; every operation must return.
@@ -141,7 +143,7 @@ func (b *bench) runPhase(t world.TB, idx int, ph phasePlan) {
 func TestBusHistories(t *testing.T) {
 	rapid.Check(t, world.Prop(func(t *rapid.T) {
 		pl := genBusPlan(t)
-		b := newBench(pl.Handlers, pl.Scripts)
+		b := newBench(pl.Handlers, pl.Scripts, pl.Cfgs)
 		defer b.w.Teardown()
 		if pl.Peer {
 			b.addPeer(b.w.AddPeer("ski1", "d:_r:peer1", peerTree(1)))
@@ -167,7 +169,7 @@ func TestBusHistories(t *testing.T) {
 		}
 		labels := []string{fmt.Sprintf("bus/handlers/%d", pl.Handlers)}
 		for name, on := range map[string]bool{"bus/peer": pl.Peer, "bus/concurrent-publication": concurrent, "bus/nested-publication": nested,
-			"bus/reentrant": reacted > 0, "bus/between": betweenTwoPublications(ops, pubs)} {
+			"bus/reentrant": reacted > 0, "bus/between": betweenTwoPublications(ops, pubs), "bus/handlers-alike": alike(pl.Cfgs)} {
 			if on {
 				labels = append(labels, name)
 			}
